@@ -332,6 +332,36 @@ def pss_foreign_salt_lengths(ctx, rng):
                 ctx.violation(f"accepts-non-rfc-signature:{a}:pss-salt-length", f"{a} signature made with a salt of {sl} octets (hash length {hl}) verified", case)
 
 
+def json_extension_members(ctx, rng):
+    """members the JSON serialization does not define, at the top level and inside a signature object (RFC 7515, 7.2.1: "if not understood ... MUST be ignored")"""
+    j = J.load()
+    payload = b"c07 extension members"
+    for alg in ("HS256", "ES256", "EdDSA:Ed25519"):
+        key = key_for(alg)
+        rk = RefKey.from_jwk(key)
+        a = alg_name(alg)
+        ent = rjws.json_signature({"alg": a}, None, payload, rk)
+        for form, tok in (("flat", rjws.flattened(payload, ent)), ("general", rjws.general(payload, [ent]))):
+            for where, extra in (("top-level", {"x-trace-id": "abc"}), ("top-level", {"created": 1700000000, "note": {"a": [1]}}), ("signature-object", {"x-route": "eu"}), ("top-level", {"ext": None})):
+                ctx.ev()
+                t = copy.deepcopy(tok)
+                if where == "top-level":
+                    t.update(copy.deepcopy(extra))
+                elif "signatures" in t:
+                    t["signatures"][0].update(copy.deepcopy(extra))
+                else:
+                    continue
+                for ep_name, f in (("jws.deserialize_json", lambda: j.jws.deserialize_json(copy.deepcopy(t), j.key(gen.public_jwk(key)), algorithms=[a])),
+                                   ("rfc7797.deserialize_json", lambda: j.rfc7797.deserialize_json(copy.deepcopy(t), j.key(gen.public_jwk(key)), algorithms=[a]))):
+                    o = call(f)
+                    ctx.count("b_checked")
+                    ctx.count("json_extension_member_cases")
+                    ctx.nontrivial(("ext-member", alg, form, where, tuple(extra), ep_name))
+                    if not o.ok or o.value.payload != payload:
+                        ctx.violation(f"joserfc-rejects-foreign:extension-member:{where}", f"{ep_name}: {form} JWS ({a}) with the {where} extension member(s) {sorted(extra)}: "
+                                      f"{'rejected: ' + repr(o.exc) if not o.ok else 'another payload'}", {"json_extension_members": True, "alg": alg, "token": t, "keys": [key]})
+
+
 def unusual_rsa_keys(ctx, rng):
     """RSA keys as other implementations make them (2047- and 2049-bit moduli, e = 3 / 17 / 2^32+1): both directions, RS* and PS*"""
     from ..keystrata import UNUSUAL_RSA
@@ -438,6 +468,8 @@ def run_shard(ctx):
         one_key_object_several_algorithms(ctx, rng)
     if ctx.shard == 10:
         pss_foreign_salt_lengths(ctx, rng)
+    if ctx.shard == 12:
+        json_extension_members(ctx, rng)
     # B: forced grid alg x form x style (round-robin over shards), payload rotating
     forms = ["compact", "flat", "general2", "c7797", "j7797"]
     k = 0
@@ -490,6 +522,8 @@ def replay(ctx, case):
         non_finite_header_values(ctx, ctx.rng)
     elif case.get("one_key_object"):
         one_key_object_several_algorithms(ctx, ctx.rng)
+    elif case.get("json_extension_members"):
+        json_extension_members(ctx, ctx.rng)
     elif case.get("pss_salt"):
         pss_foreign_salt_lengths(ctx, ctx.rng)
     elif case.get("dir") == "B":
